@@ -13,6 +13,7 @@ from ..common import Scratch, from_us, quiet_stdout
 from ..core import Violation
 from ..gen import BASE_US
 
+REPLAY_BY_RERUN = True  # workloads are deterministic in (tier, seed, shard): replay re-runs the shard
 SHARDS = {"quick": 4, "thorough": 4}
 TIMEOUT = {"quick": 600, "thorough": 1800}
 
